@@ -1,4 +1,5 @@
 import OW.Proofs.NdC01Ops
+import OW.Proofs.NdC01Apply
 /-!
 C01 — array slices are live strided views that compose, with exact write footprints.
 
@@ -64,6 +65,38 @@ theorem chain_index {v : View} (hv : Reach v) (c : List SliceReq) (ok : ChainOK 
       rw [hlen] at hl
       exact slice_index hv ok1 hw1 _ (by rw [hl, hlen])
 
+/-! ### addresses: `Index` is a bijection on a root and injective into the root's range on every reachable view -/
+
+/-- **index_closed_form.** For a reachable view and any `loc` of the view's rank, `Index` does not panic and equals
+`Start + Σ locᵢ·Stepᵢ·Offsetᵢ`, where `Offset` are the row-major strides of the allocated shape. -/
+theorem index_closed_form {v : View} (hv : Reach v) (loc : Idx) (hloc : loc.length = v.dims.length) :
+    v.index loc = .ok (v.start + dot loc (mulL v.step v.offset)) ∧ v.offset = offsetsT v.orig :=
+  ⟨index_eq (reach_geo hv) loc (by omega), (reach_geo hv).offset_eq⟩
+
+/-- **root_index_bijection.** For a root array of shape `D` (non-empty, extents ≥ 1), `idx ↦ Index(idx)` is a
+bijection between the in-bounds multi-indices and `[0, Π D)`: it is the row-major rank `ravel idx D` (in range), it is
+injective, and every `k` in range is the address of the in-bounds index `unravel k D`. -/
+theorem root_index_bijection {D : Idx} {v : View} (hne : D ≠ []) (hpos : Pos D) (h : View.root D = .ok v) :
+    (∀ idx, InBounds idx D → v.index idx = .ok (ravel idx D) ∧ 0 ≤ ravel idx D ∧ ravel idx D < product D) ∧
+    (∀ i j, InBounds i D → InBounds j D → v.index i = v.index j → i = j) ∧
+    (∀ k, 0 ≤ k → k < product D → InBounds (unravel k D) D ∧ v.index (unravel k D) = .ok k) := by
+  refine ⟨fun idx hi => ⟨root_index hne h idx hi.length, ravel_bounds hi⟩, fun i j hi hj e => ?_,
+    fun k h0 hlt => root_index_unravel hne hpos h k h0 hlt⟩
+  rw [root_index hne h i hi.length, root_index hne h j hj.length] at e
+  injection e with e
+  exact ravel_inj hi hj e
+
+/-- **index_inbounds.** In-bounds indices of a reachable view (any chain of slices) are addressed, without panic,
+inside the root's range `[0, Π OriginalDims)`. -/
+theorem index_inbounds {v : View} (hv : Reach v) {i : Idx} (hi : InBounds i v.dims) :
+    ∃ p, v.index i = .ok p ∧ 0 ≤ p ∧ p < product v.orig :=
+  OW.Nd.index_inbounds (reach_geo hv) hi
+
+/-- **index_inj.** Distinct in-bounds indices of a reachable view address distinct storage positions. -/
+theorem index_inj {v : View} (hv : Reach v) {i j : Idx} (hi : InBounds i v.dims) (hj : InBounds j v.dims)
+    (h : v.index i = v.index j) : i = j :=
+  OW.Nd.index_inj (reach_geo hv) hi hj h
+
 /-! ### T2 — reading through a slice -/
 
 /-- **get_slice.** "Element `i` of `slice(loc, dims, step)` is element `loc + i*step` of its parent": for an array
@@ -127,6 +160,68 @@ theorem set_preserves {α : Type} {h h' : Heap α} {a : Arr} {loc : Idx} {x : α
     SameShape h h' ∧ ∀ c : Arr, ArrOK h c → ArrOK h' c :=
   ⟨set_sameShape hs, fun _ hc => hc.sameShape (set_sameShape hs)⟩
 
+/-- **apply_paths_agree.** `Apply(loc, dim, step, vals)` — the 1-D run write — on a reachable array satisfying the
+window conditions, for an in-bounds run (`loc` in bounds, `step ≥ 1`, `vals` non-empty, last element
+`loc[dim] + (len-1)·step` inside the extent): on EVERY path (contiguous fast path `copy(Impl[start:start+len], vals)` of
+the Go back-end, element loop of the Go back-end, element loop of the C back-end) the result is that of the element
+loop `Set(loc + k·step·e_dim, vals[k])`, `k = 0 … len-1` — the fast path never changes the answer. -/
+theorem apply_paths_agree {α : Type} {h : Heap α} {a : Arr} (hr : Reach a.v) (hok : ArrOK h a) {loc : Idx} {d : Nat}
+    {step : Int} {vals : List α} {D l : Int} (hloc : InBounds loc a.v.dims) (hD : a.v.dims[d]? = some D)
+    (hl : loc[d]? = some l) (hne : vals ≠ []) (hstep : 1 ≤ step)
+    (hlast : l + ((vals.length : Int) - 1) * step < D) :
+    apply h a loc (d : Int) step vals = setSeq h a (runPairs loc d l step 0 vals) ∧
+      ∃ h', apply h a loc (d : Int) step vals = .ok h' := by
+  have r : RunOK a.v.dims loc d step vals.length D l :=
+    ⟨hloc, hD, hl, by cases vals with | nil => exact absurd rfl hne | cons _ _ => simp, hstep, hlast⟩
+  have g := reach_geo hr
+  rw [apply_eq g hok r]
+  refine ⟨?_, _, rfl⟩
+  rw [setSeq_eq g _ h hok]
+  intro w hw
+  obtain ⟨j, hj, rfl⟩ := (mem_runPairs loc d l step vals 0 w).mp hw
+  exact r.inBounds (by omega) (by omega)
+
+/-- **apply_footprint.** Under the hypotheses of `apply_paths_agree`, `Apply` never panics and changes exactly the
+addressed elements: the heap keeps its shape; for every `k < len(vals)` the index `loc + k·step·e_dim` is in bounds and
+the storage cell it addresses (`base + Index(·)` of storage `a.sid`) holds `vals[k]` afterwards; every other cell of
+every storage is unchanged. Holds on the fast path, the loop path and for the C back-end alike. -/
+theorem apply_footprint {α : Type} {h : Heap α} {a : Arr} (hr : Reach a.v) (hok : ArrOK h a) {loc : Idx} {d : Nat}
+    {step : Int} {vals : List α} {D l : Int} (hloc : InBounds loc a.v.dims) (hD : a.v.dims[d]? = some D)
+    (hl : loc[d]? = some l) (hne : vals ≠ []) (hstep : 1 ≤ step)
+    (hlast : l + ((vals.length : Int) - 1) * step < D) :
+    ∃ h', apply h a loc (d : Int) step vals = .ok h' ∧ SameShape h h' ∧
+      (∀ (k : Nat) (hk : k < vals.length), InBounds (loc.set d (l + k * step)) a.v.dims ∧
+        ∃ p, a.v.index (loc.set d (l + k * step)) = .ok p ∧
+          cell h' a.sid (a.base + p).toNat = some vals[k]) ∧
+      (∀ t q : Nat, (t ≠ a.sid ∨ ∀ k : Nat, k < vals.length →
+          ∀ p, a.v.index (loc.set d (l + k * step)) = .ok p → q ≠ (a.base + p).toNat) →
+        cell h' t q = cell h t q) := by
+  have r : RunOK a.v.dims loc d step vals.length D l :=
+    ⟨hloc, hD, hl, by cases vals with | nil => exact absurd rfl hne | cons _ _ => simp, hstep, hlast⟩
+  have g := reach_geo hr
+  have hdl : d < loc.length := by rw [hloc.length]; exact r.d_lt
+  have hib : ∀ w ∈ runPairs loc d l step 0 vals, InBounds w.1 a.v.dims := by
+    intro w hw
+    obtain ⟨j, hj, rfl⟩ := (mem_runPairs loc d l step vals 0 w).mp hw
+    exact r.inBounds (by omega) (by omega)
+  obtain ⟨h', _, rfl, hsh, hin, hout⟩ :=
+    setSeq_footprint g hok (runPairs loc d l step 0 vals) hib (runPairs_nodup hdl l hstep vals 0)
+  refine ⟨_, apply_eq g hok r, hsh, fun k hk => ?_, fun t q hne => ?_⟩
+  · have hk' : InBounds (loc.set d (l + k * step)) a.v.dims := r.inBounds (k := (k : Int)) (by omega) (by omega)
+    have hm : (runLoc loc d l step (0 + (k : Int)), vals[k]) ∈ runPairs loc d l step 0 vals :=
+      (mem_runPairs loc d l step vals 0 _).mpr ⟨k, hk, rfl⟩
+    have := hin _ hm
+    simp only [runLoc, Int.zero_add] at this
+    exact ⟨hk', _, index_addr g _ (by rw [hk'.length]), this⟩
+  · apply hout
+    rcases hne with h1 | h2
+    · exact Or.inl h1
+    · refine Or.inr (fun w hw => ?_)
+      obtain ⟨j, hj, rfl⟩ := (mem_runPairs loc d l step vals 0 w).mp hw
+      have hj' : InBounds (loc.set d (l + j * step)) a.v.dims := r.inBounds (k := (j : Int)) (by omega) (by omega)
+      have := h2 j hj _ (index_addr g _ (by rw [hj'.length]))
+      simpa [runLoc] using this
+
 /-! ### T4 — a write is visible through every overlapping view -/
 
 /-- **write_visible.** After `Set(loc, x)` through view `a`, `Get(j)` through ANY reachable array `b` on the same
@@ -188,7 +283,7 @@ theorem write_visible_self {α : Type} {h : Heap α} {a : Arr} (ha : Reach a.v) 
     simp [h3]
   · have : ¬ pb = pa := by
       intro e'; subst e'
-      exact e (index_inj (reach_geo ha) hj hloc (by rw [h2, h3]))
+      exact e (index_inj ha hj hloc (by rw [h2, h3]))
     simp [e, this]
 
 /-! ### window conditions of the constructors -/
